@@ -22,8 +22,9 @@ RULE = ("random shapes of every kind (simple, connected with holes, disjoint, un
         "non-trivial = a shape with at least one boundary and >= 10 judged points; distinct = distinct case specs")
 ASSUMPTIONS = [
     "oracle kernel: exact winding number by bounding-box bisection",
-    "float/curved inputs: only points certified >= max(1e-5, 1e-5*diameter) from every boundary, or constructed on "
-    "the boundary (within rounding), are judged; the band in between belongs to the library's 1e-6 boundary rule",
+    "float/curved inputs: points certified >= max(1e-5, 1e-5*diameter) from every boundary, grazing points certified "
+    ">= 2.5e-6 (absolute) away, or points constructed on the boundary (within rounding) are judged; closer points belong "
+    "to the library's 1e-6 boundary rule",
     "rational polygons: points farther than 2e-6 are judged exactly; exact on-boundary points must follow the flag",
 ]
 DECIDING_MONITORS = ("membership:judged",)
@@ -73,7 +74,7 @@ def case(ctx):
     import shapepy
 
     rng = ctx.rng
-    kind = rng.choice("SSSSUUCCCDDVVEW")
+    kind = rng.choice("SSSSUUCCCDDNVVEW")
     curved = rng.random() < 0.45
     num = None if curved else rng.choice(["int", "frac", "float"])
     size = rng.choice([1.0, 10.0, 10.0, 100.0])
@@ -113,6 +114,12 @@ def case(ctx):
             cands.append(("near", p))
         for p in sliver_points(rng, c, max(4, 30 // len(curves))):
             cands.append(("sliver", p))
+    # grazing points: a few 1e-6 (absolute) away from the boundary, just outside the library's
+    # documented 1e-6 boundary tolerance, whatever the size of the shape
+    if not exact_shape:
+        for c in curves:
+            for p in G.near_boundary_points(rng, c, max(3, 12 // len(curves)), [3e-6, 5e-6, 1e-5, 3e-5]):
+                cands.append(("graze", p))
     for _ in range(6):
         r = 10 ** rng.uniform(2, 9)
         ang = rng.uniform(0, math.tau)
@@ -136,7 +143,7 @@ def case(ctx):
         if as_float:
             p = (Fr(float(p[0])), Fr(float(p[1])))
         try:
-            want = O.region_contains(region, p, delta)
+            want = O.region_contains(region, p, Fr(25, 10 ** 7) if label == "graze" else delta)
         except O.TooClose:
             case.count("points:not-judged-too-close")
             continue
